@@ -8,7 +8,7 @@
 //	storechild storenil <dir>
 //	storechild script <dir> <file>     a whole history in ONE process: one JSON array per line, ["store", doc.pb,
 //	                                   "true|false"], ["retrieve", id-hex], ["storenil"], ["wipe"] (the directory is
-//	                                   removed), ["remove", entry-name]; one outcome line per command
+//	                                   removed), ["remove", entry-name], ["litter", entry-name] (foreign files next to an entry); one outcome line per command
 package main
 
 import (
@@ -179,6 +179,13 @@ func runScript(dir, file string) {
 				emit(out{Outcome: "ok"})
 			case "remove":
 				_ = os.Remove(filepath.Join(dir, cmd[1]))
+				emit(out{Outcome: "ok"})
+			case "litter":
+				// foreign files next to an entry, long ones
+				junk := []byte(strings.Repeat("leftover ", 600))
+				for _, suffix := range []string{".tmp", ".tmp-1", "~", ".bak"} {
+					_ = os.WriteFile(filepath.Join(dir, cmd[1]+suffix), junk, 0o644)
+				}
 				emit(out{Outcome: "ok"})
 			default:
 				os.Exit(2)
